@@ -38,7 +38,7 @@ RULE = ('translator self-check: every method of SignalBuffer (table sets vs byte
         'and ub != 0; get_range_filled overlapping and entirely outside; the four bound queries) x 6 initial states (empty, partly filled, '
         'full, just invalidated, two channels, resized); switch points: every source line and every return of a buffer.py frame; quick: '
         '1/9 of the pairs covering every writer x reader method combination, <= 1 pre-emption, plus 7 writer x writer pairs; thorough: every '
-        'pair <= 2 pre-emptions, every 10th <= 3, writer x writer on 3 states. Non-trivial: a method that touches a mutable field or calls '
+        'pair (every 2nd <= 2 pre-emptions, every 25th <= 3, the rest <= 1), writer x writer on 3 states. Non-trivial: a method that touches a mutable field or calls '
         'another method; an exploration in which a thread was blocked on the lock or both serial outcomes were observed.')
 TRUSTED = ['translate/pylocks2coq.py (AST -> lock-structure table; fail-closed: unclassifiable statements become SOpaque, which no '
            'discipline accepts)',
@@ -562,7 +562,7 @@ def cases(tier, rng):
     else:
         for (si, wi, ri), scn in _pairs():
             i = (si * 11 + wi) * 19 + ri
-            yield dict(scn, k='explore', bound=(3 if i % 10 == 0 else 2))
+            yield dict(scn, k='explore', bound=(3 if i % 25 == 0 else 2 if i % 2 == 0 else 1))
     for scn in _ww_pairs():
         if tier != 'quick' or scn['state'] == 'full':
             yield dict(scn, k='explore', bound=(1 if tier == 'quick' else 2))
